@@ -374,12 +374,13 @@ def r7_atomics(text, blocks, recv_pat=r"(?:[A-Za-z_]\w*)(?:\s*\.\s*(?:[A-Za-z_]\
         if len(kept) == len(args):
             pos = mm.end()   # not an atomic call (no Ordering argument)
             continue
-        if k >= len(blocks):
+        every = not isinstance(blocks, (list, tuple))
+        if not every and k >= len(blocks):
             raise Undecided("R7: more atomic operations than ghost blocks (%d)" % len(blocks))
         recv = " ".join(mm.group(1).split())
         op = mm.group(2)
         ret = "" if op in ("load", "store") else " returning ret;"
-        blk = blocks[k]
+        blk = blocks if every else blocks[k]
         if isinstance(blk, dict):
             blk = blk.get(op, blk.get("default"))
             if blk is None:
@@ -388,8 +389,10 @@ def r7_atomics(text, blocks, recv_pat=r"(?:[A-Za-z_]\w*)(?:\s*\.\s*(?:[A-Za-z_]\
         text = text[:mm.start()] + repl + text[op_close + 1:]
         pos = mm.start() + len(repl)
         k += 1
-    if k != len(blocks):
+    if isinstance(blocks, (list, tuple)) and k != len(blocks):
         raise Undecided("R7: %d atomic operations found, %d ghost blocks configured" % (k, len(blocks)))
+    if k == 0:
+        raise Undecided("R7: no atomic operation found")
     return text, k
 
 
